@@ -224,21 +224,26 @@ class C01(Prop):
 
     # -- gamma -------------------------------------------------------------
     def concretise(self, node, H, rnd, salt):
+        """gamma: returns (real object, the element tree the CALLER described) - the expectation is derived from what is
+        handed to the constructors, not read back from the library's objects."""
+        txt = lambda s: {"k": "text", "name": "", "attrs": [], "c": [], "t": cps(s)}
         k = node["k"]
         if k == "E":
-            return ""
+            return "", txt("")
         if k in ("T", "H", "R"):       # leaves of the shared tree enumeration: text or number
             r = rnd.random()
             if r < 0.2:
-                return rnd.choice([0, 7, -1, 2.5, 10 ** 15, 1e-9, True])
-            if r < 0.7:
-                return rnd.choice(gamma.HOSTILE)
-            return gamma.rand_text(rnd, rnd.choice([4, 30]))
+                n = rnd.choice([0, 7, -1, 2.5, 10 ** 15, 1e-9, True, 0.0, False])
+                return n, txt(str(n))
+            s = rnd.choice(gamma.HOSTILE) if r < 0.7 else gamma.rand_text(rnd, rnd.choice([4, 30]))
+            return s, txt(s)
         if k == "M":
-            return rnd.choice([H.MetadataNode(), H.HTMLDependency("d", "1.0"), H.head_content("h")])
-        kids = [self.concretise(c, H, rnd, salt) for c in node["c"]]
+            return rnd.choice([H.MetadataNode(), H.HTMLDependency("d", "1.0"), H.head_content("h")]), None
+        pairs = [self.concretise(c, H, rnd, salt) for c in node["c"]]
+        kids = [p[0] for p in pairs]
+        exps = [p[1] for p in pairs if p[1] is not None]
         if k == "L":
-            return H.TagList(*kids)
+            return H.TagList(*kids), {"k": "list", "name": "", "attrs": [], "c": exps, "t": []}
         nm = layout_names()
         i = node["id"]
         if k in ("V", "W"):
@@ -250,13 +255,16 @@ class C01(Prop):
         if name in ("script", "style"):
             kids = [("a=b;" if not isinstance(x, (int, float)) else x) if isinstance(x, (str, int, float)) and not isinstance(x, H.HTML) else x
                     for x in kids]
+            exps = [txt(str(x)) for x in kids if isinstance(x, (str, int, float))]
         attrs = {}
         for _ in range(rnd.choice([0, 0, 1, 2, 3])):
             v = rnd.choice(gamma.HOSTILE) if rnd.random() < 0.7 else gamma.rand_text(rnd, 12)
             if rnd.random() < 0.15:
                 v = rnd.choice([True, 5, 2.5, ""])
             attrs[rnd.choice(ATTR_NAMES)] = v
-        return H.Tag(name, attrs, *kids, _add_ws=(k in ("B", "V")))
+        exp = {"k": "tag", "name": name, "attrs": [{"n": a, "v": cps("" if v is True else str(v))} for a, v in attrs.items()],
+               "c": exps, "t": []}
+        return H.Tag(name, attrs, *kids, _add_ws=(k in ("B", "V"))), exp
 
     def gens_from_export(self, lines, tier, rnd):
         gens = []
@@ -287,8 +295,9 @@ class C01(Prop):
         import htmltools as H
         rnd = random.Random(g["seed"])
         if g["kind"] == "tree":
-            obj = self.concretise(g["tree"], H, rnd, g["salt"])
+            obj, described = self.concretise(g["tree"], H, rnd, g["salt"])
             out = obj.get_html_string(g["indent"], g["eol"])
+            return {"tree": described, "events": tokenize(out), "gen": g}
         else:
             nm = g["name"]
             raw = nm in ("script", "style")
